@@ -11,6 +11,7 @@ import (
 
 	"github.com/tsawler/tabula/htmldoc"
 	"github.com/tsawler/tabula/model"
+	"github.com/tsawler/tabula/rag"
 )
 
 // Reader-related errors.
@@ -281,6 +282,13 @@ func (r *Reader) Markdown() (string, error) {
 
 // MarkdownWithOptions extracts content as markdown with the given options.
 func (r *Reader) MarkdownWithOptions(opts ExtractOptions) (string, error) {
+	return r.MarkdownWithRAGOptions(opts, rag.MarkdownOptions{})
+}
+
+// MarkdownWithRAGOptions extracts content as markdown; the heading levels of every chapter
+// follow mdOpts.HeadingLevelOffset and mdOpts.MaxHeadingLevel.
+func (r *Reader) MarkdownWithRAGOptions(opts ExtractOptions, mdOpts rag.MarkdownOptions) (string, error) {
+	chapterOpts := rag.MarkdownOptions{HeadingLevelOffset: mdOpts.HeadingLevelOffset, MaxHeadingLevel: mdOpts.MaxHeadingLevel}
 	htmlOpts := htmldoc.ExtractOptions{
 		NavigationExclusion: htmldoc.NavigationExclusionMode(opts.NavigationExclusion),
 	}
@@ -292,7 +300,7 @@ func (r *Reader) MarkdownWithOptions(opts ExtractOptions) (string, error) {
 			continue
 		}
 
-		md, err := htmlReader.MarkdownWithOptions(htmlOpts)
+		md, err := htmlReader.MarkdownWithRAGOptions(htmlOpts, chapterOpts)
 		if err != nil {
 			continue
 		}
